@@ -17,8 +17,9 @@ white-box state must satisfy the model's `Idle` predicate, and after the history
 import json, os, random, sys
 from vlib import *
 
-IDLE = "0,-1,1,1,1,0,0,0,0,0,0"
-FIELDS = ["sp", "sb", "prgNil", "stashGlobal", "privEnvNil", "callStack", "tryStack", "iterStack", "refStack", "jobQueue", "interrupted"]
+IDLE = "0,-1,1,1,1,0,0,0,0,0,0,0,1,1,0"
+FIELDS = ["sp", "sb", "prgNil", "stashGlobal", "privEnvNil", "callStack", "tryStack", "iterStack", "refStack", "jobQueue", "interrupted",
+          "privEnvDepth", "curAsyncRunnerNil", "newTargetNil", "args"]
 CATCHABLE = ["t", "o", "g", "x"]
 
 
@@ -42,13 +43,17 @@ class Gen:
         return self.pid
 
     # returns (tokens, js)
-    def beh(self, d):
+    def beh(self, d, strict=None):
+        if strict is None:
+            strict = getattr(self, '_strict', False)
         r = self.rng
         if d <= 0:
             c = r.choice(["P", "P", "P", "T", "K", "tmpP"])
         else:
             c = r.choice(["P", "S", "S", "S", "call", "forEach", "try", "try", "try", "forOf", "forOfC", "block",
-                          "gnat", "job", "tmpP", "T", "ref"])
+                          "gnat", "job", "tmpP", "T", "ref", "priv", "priv"])
+            if strict and c == "ref":
+                c = "block"          # class bodies are strict code: no `with`
         if c == "K":
             return ["K"], ";"
         if c == "P":
@@ -95,6 +100,23 @@ class Gen:
             b, jb = self.beh(d - 1)
             z = self.fresh("z")
             return ["Fb"] + b, "{ let %s = 1; (function(){ return %s }); %s }" % (z, z, jb)
+        if c == "priv":
+            # a class body with private names evaluates its computed member key in the SAME call frame, with the private
+            # environment pushed: the key throws right there (null.x), or is harmless, or runs a behaviour in an arrow
+            # function called in place
+            x = self.fresh("X")
+            v = r.choice(["T", "K", "call"])
+            if v == "T":
+                return ["Fp", "T"], "class %s { #p = 1; [null.x](){} }" % x
+            if v == "K":
+                return ["Fp", "K"], "class %s { #p = 1; [0](){} }" % x
+            old = getattr(self, '_strict', False)
+            self._strict = True
+            try:
+                b, jb = self.beh(d - 1)
+            finally:
+                self._strict = old
+            return ["Fp", "Fc", "0"] + b, "class %s { #p = 1; [(() => { %s })()](){} }" % (x, jb)
         if c == "ref":
             # `with` makes the assignment go through a reference record that is live while the RHS runs
             b, jb = self.beh(d - 1)
@@ -219,6 +241,22 @@ def harness_line(h):
 
 # ------------------------------------------------------------------------------------------- wild stream
 WILD_BODIES = [
+    # async chains of depth >= 2: the fault lands in a continuation after an await (run from the job queue in leave())
+    "async function inner(){ await null; P(1); P(2); } async function outer(){ await inner(); P(3); } outer(); P(4);",
+    "async function inner(){ await null; (function r(n){ P(1); if (n<70) r(n+1) })(0); } async function outer(){ await inner(); P(2); } outer();",
+    "async function a3(){ await null; P(1); await null; P(2); } async function a2(){ await a3(); P(3); } async function a1(){ try { await a2(); } finally { P(4); } } a1(); P(5);",
+    "async function inner(){ await Promise.reject(1); } async function outer(){ try { await inner(); } catch(e) { P(1); await null; P(2); } } outer();",
+    "async function inner(){ await null; throw new Error('ai'); } async function outer(){ await inner(); P(1); } outer().catch(function(){ P(2) });",
+    # classes with private names whose computed keys / static blocks / field initialisers throw in the class-body frame
+    "class X { #p = 1; [null.x](){} }",
+    "class X { #p = 1; [undeclaredName](){} }",
+    "try { class X { #p = 1; [null.x](){} } } catch(e) { P(1) } P(2);",
+    "function f(){ try { class X { #p = 1; static #q = 2; [P(1)](){} [null.x](){} } } catch(e) { P(2) } } f(); P(3);",
+    "class A { #a = 7; m(){ try { class B { #b = 1; [null.x](){} } } catch (e) { P(1) } return this.#a } } new A().m(); P(2);",
+    "class Y { #q = P(1); static s = P(2); static { P(3); } constructor(){ P(4) } } new Y(); P(5);",
+    "class Z { #z = 1; static { null.x } }",
+    "class F { #f = (function(){ throw new Error('init') })(); } try { new F() } catch(e) { P(1) }",
+    "class O { #o = 1; static m(){ class I { #i = 2; [P(1)](){} static { P(2) } } return I } } O.m(); P(3);",
     "function* g(){ try { P(1); yield 1; P(2); yield 2 } finally { P(3) } } for (var v of g()) { P(4); if (v==1) { try { throw 1 } catch(e) { P(5) } } }",
     "function* g(){ P(1); yield 1; P(2) } var it=g(); it.next(); P(3); it.next(); P(4);",
     "function* g(){ try { yield 1; yield 2 } finally { P(1) } } for (var v of g()) { P(2); throw new Error('q') }",
@@ -324,6 +362,12 @@ def regression_seeds():
 
 
 WILD_SEEDS = [
+    # mutation round 2 (seeded/C03-m3, -m4): abort inside the continuation of an awaited async function; class body with
+    # private names throwing in its own frame, uncaught and caught in the same function
+    {"max": 40, "prelude": "function rec(){ rec(); }\nasync function inner(){ await null; rec(); }\nasync function outerCaller(){ await inner(); }", "calls": [{"api": "RP", "src": "outerCaller(); 1", "k": 0, "kind": "t"}], "natives": {}},
+    {"max": -1, "prelude": "async function inner(){ await null; P(1); }\nasync function outerCaller(){ await inner(); }", "calls": [{"api": "RP", "src": "outerCaller(); 1", "k": 1, "kind": "i"}], "natives": {}},
+    {"max": -1, "prelude": "", "calls": [{"api": "RP", "src": "class X { #p = 1; peek() { return eval(\"this.#p\") } [null.x]() {} }", "k": 0, "kind": "t"}], "natives": {}},
+    {"max": -1, "prelude": "function FX(){ try { class X { #p = 1; [null.x](){} } } catch(e) { P(1) } }", "calls": [{"api": "CA", "fn": "FX", "n": 0, "k": 0, "kind": "t"}, {"api": "RP", "src": "class A { #a = 7; m(){ try { class B { #b = 1; [null.x](){} } } catch (e) {} return this.#a } } new A().m();", "k": 0, "kind": "t"}], "natives": {}},
     # repaired by 25ae49c (defect:generator-create-overflow): overflow while a generator / async activation is created
     {"max": 1, "prelude": "", "calls": [{"api": "RP", "src": "async function f(){ await 1 } f()", "k": 0, "kind": "t"}], "natives": {}},
     {"max": 1, "prelude": "", "calls": [{"api": "RP", "src": "var g=(function*(){ yield 1 })(); g.next()", "k": 0, "kind": "t"}], "natives": {}},
@@ -658,7 +702,8 @@ def source_facts(ctx):
             "if tf.catchPos == -1 && tf.finallyPos == -1 || ex == nil && tf.catchPos != tryPanicMarker {",
             "if int(tf.callStackLen) < len(vm.callStack) {", "vm.callStack = vm.callStack[:tf.callStackLen]",
             "ctx.prg, ctx.newTarget, ctx.result, ctx.pc, ctx.sb, ctx.args",
-            "vm.sp = int(tf.sp)", "vm.stash = tf.stash", "vm.privEnv = tf.privEnv",
+            # the registers are restored OUTSIDE the `callStackLen < len(callStack)` branch, unconditionally:
+            "vm.callStack = vm.callStack[:tf.callStackLen]\n\t\t}\n\t\tvm.sp = int(tf.sp)\n\t\tvm.stash = tf.stash\n\t\tvm.privEnv = tf.privEnv\n\t\t_ = vm._restoreStacks(",
             "vm._restoreStacks(tf.iterLen, tf.refLen, ex != nil)", "tf = &vm.tryStack[len(vm.tryStack)-1]",
             "if tf.catchPos == tryPanicMarker {\n\t\t\tbreak", "tf.catchPos = -1\n\t\t\treturn nil",
             "tf.finallyPos = -1\n\t\t\ttf.finallyRet = -1\n\t\t\treturn nil", "if ex == nil {\n\t\tpanic(arg)"],
@@ -686,6 +731,9 @@ def source_facts(ctx):
         ("runtime.go", "func (e *Exception) valueString("): [
             "if r := obj.runtime; len(r.vm.callStack) == 0 && asUncatchableException(x) != nil {\n\t\t\t\tr.leaveAbrupt()",
             "if ex := obj.runtime.vm.try(func() {\n\t\ts = obj.String()"],
+        # outside the mechanism model, but fields of the Idle vector depend on them (vm.curAsyncRunner must be reset on every exit)
+        ("func.go", "func (ar *asyncRunner) onFulfilled("): ["ar.gen.vm.curAsyncRunner = ar\n\tdefer func() {\n\t\tar.gen.vm.curAsyncRunner = nil\n\t}()"],
+        ("func.go", "func (ar *asyncRunner) onRejected("): ["ar.gen.vm.curAsyncRunner = ar\n\tdefer func() {\n\t\tar.gen.vm.curAsyncRunner = nil\n\t}()"],
         ("runtime.go", "func (r *Runtime) leaveAbrupt("): ["r.jobQueue = nil", "r.ClearInterrupt()", "r.vm.prg = nil", "r.vm.sb = -1"],
         ("runtime.go", "func (r *Runtime) leave("): ["for len(r.jobQueue) > 0 {", "jobs, r.jobQueue = r.jobQueue, jobs[:0]", "r.jobQueue = nil"],
     }
